@@ -312,6 +312,24 @@ func TestZeroTails(t *testing.T) {
 	}
 }
 
+func TestOnMutate(t *testing.T) {
+	f := New()
+	Use(f)
+	defer Use(nil)
+	var seen []int
+	f.OnMutate(func(l int) { seen = append(seen, l) })
+	MkdirAll("/d", 0700)
+	a, _ := OpenFile("/d/a", O_CREATE|O_WRONLY|O_APPEND, 0600)
+	a.Write([]byte("x"))
+	Remove("/d/nope") // fails: not a mutation
+	a.Sync()
+	f.FailAfter(0, FailError)
+	a.Write([]byte("y")) // crashes: not applied, no callback
+	if fmt.Sprint(seen) != "[0 1 2 3]" || f.LogLen() != 4 {
+		t.Fatalf("OnMutate saw %v, log %d", seen, f.LogLen())
+	}
+}
+
 func TestFailAfter(t *testing.T) {
 	for _, mode := range []FailMode{FailPanic, FailError} {
 		f := New()
